@@ -305,7 +305,11 @@ func (vc *VC) intBinop(op string, x, y Val, t types.Type, overflow func(kind str
 			if bits > 16 {
 				vc.unsupportedf("bitwise %s on two non-constant %d-bit operands", op, bits)
 			}
-			res.S = fromUnsigned(bitwiseGeneral(op, toUnsigned(x.S, signed, bits), toUnsigned(y.S, signed, bits), bits), signed, bits)
+			if op == "^" && (bits == 8 || bits == 16) {
+				res.S = fromUnsigned(vc.xorUF(toUnsigned(x.S, signed, bits), toUnsigned(y.S, signed, bits), bits), signed, bits)
+			} else {
+				res.S = fromUnsigned(bitwiseGeneral(op, toUnsigned(x.S, signed, bits), toUnsigned(y.S, signed, bits), bits), signed, bits)
+			}
 		}
 	default:
 		panic(fmt.Sprintf("intBinop %s", op))
@@ -380,4 +384,17 @@ func (vc *VC) convertInt(x Val, to types.Type, notrunc func(cond Term)) Val {
 		res.NZ = new(big.Int).And(nz, thi)
 	}
 	return res
+}
+
+// xorUF: x ^ y for two symbolic operands of 8 or 16 bits, as a function symbol with two axioms: its
+// definition (bit by bit, so nothing is lost) and the involution law (a ^ b) ^ b == a, which holds
+// for all operands in range but which no solver derives from the bit-level definition in context.
+func (vc *VC) xorUF(x, y Term, bits uint) Term {
+	name := fmt.Sprintf("bxor%d", bits)
+	vc.declareFun(name, []string{"Int", "Int"}, "Int")
+	lim := bigNum(pow2(bits))
+	inr := func(v Term) Term { return and(app("<=", "0", v), app("<", v, lim)) }
+	vc.axiomOnce(name+".def", fmt.Sprintf("(forall ((a Int) (b Int)) (! (= (%s a b) %s) :pattern ((%s a b))))", name, bitwiseGeneral("^", "a", "b", bits), name))
+	vc.axiomOnce(name+".inv", fmt.Sprintf("(forall ((a Int) (b Int)) (! (=> (and %s %s) (= (%s (%s a b) b) a)) :pattern ((%s (%s a b) b))))", inr("a"), inr("b"), name, name, name, name))
+	return app(name, x, y)
 }
